@@ -235,6 +235,10 @@ func VerifC15_CmdChunkServerAuth_E() {
 	} else {
 		os.Setenv("DESYNC_HTTP_AUTH", "secret")
 	}
+	// the command's flags: --writable, --skip-verify-write and --skip-verify-read (independent of each other)
+	opt.writable = true
+	opt.skipVerifyWrite = vChoose("skip-verify-write", 2) == 1
+	opt.skipVerify = vChoose("skip-verify-read", 2) == 1
 	http.DefaultServeMux = http.NewServeMux() // a fresh default mux for this run (package initialisers are not executed by the engine)
 	err := runChunkServer(context.Background(), opt, nil)
 	vCover("server-returned")
@@ -254,5 +258,48 @@ func VerifC15_CmdChunkServerAuth_E() {
 		} else {
 			vAssert(w.code == 200, "the server started by the CLI refuses the configured authorization value")
 		}
+	}
+	// an upload whose content does not match the ID in its path is refused unless --skip-verify-write was given
+	other := desync.NewChunk([]byte{0x7a})
+	oid := other.ID()
+	ohx := oid.String()
+	wrong, _ := desync.Compress([]byte{0x61, 0x62}) // good's content under other's name
+	w := &verifRecorderRW{}
+	opath := "/" + ohx[0:4] + "/" + ohx + ".cacnk"
+	r := &http.Request{Method: "PUT", URL: &url.URL{Path: opath}, Header: http.Header{"Authorization": []string{"secret"}}, Body: ioutil.NopCloser(bytes.NewReader(wrong)), RequestURI: opath}
+	http.DefaultServeMux.ServeHTTP(w, r)
+	_, serr := os.Stat(root + "/store/" + ohx[0:4] + "/" + ohx + ".cacnk")
+	if !opt.skipVerifyWrite {
+		vAssert(w.code >= 400 && os.IsNotExist(serr), "the server started by the CLI stored an upload whose content does not match its ID although write verification was not disabled")
+	}
+}
+
+// VerifC17_CmdIndexNames_E: verify-index (and every other command) reads the index file that
+// was named on the command line - also when the name contains characters that mean something in
+// a URL ('?', '#', '%41') and a sibling file carries the name without them.
+func VerifC17_CmdIndexNames_E() {
+	dir := vTempDir()
+	mk := func(size uint64) desync.Index {
+		id := desync.NewChunk([]byte{byte(size)}).ID()
+		return desync.Index{Index: desync.FormatIndex{FeatureFlags: desync.CaFormatSHA512256, ChunkSizeMin: 1, ChunkSizeAvg: 1, ChunkSizeMax: 8},
+			Chunks: []desync.IndexChunk{{ID: id, Start: 0, Size: size}}}
+	}
+	write := func(name string, idx desync.Index) {
+		f, _ := os.Create(dir + "/" + name)
+		idx.WriteTo(f)
+		f.Close()
+	}
+	names := []string{"a.caibx?rev=2", "a.caibx#frag", "a%41.caibx", "a b.caibx"}
+	name := names[vChoose("index-name", len(names))]
+	write("a.caibx", mk(1))  // the sibling a URL-minded lookup would find
+	write("aA.caibx", mk(2)) // what "a%41.caibx" decodes to
+	write(name, mk(3))       // the file that is named on the command line
+	var cmdOpt cmdStoreOptions
+	addStoreOptions(&cmdOpt, pflag.NewFlagSet("verif", pflag.ContinueOnError))
+	idx, err := readCaibxFile(dir+"/"+name, cmdOpt)
+	vCover("read")
+	vAssert(err == nil, "the index file named on the command line could not be read")
+	if err == nil {
+		vAssert(len(idx.Chunks) == 1 && idx.Chunks[0].Size == 3, "another index file than the one named on the command line was read")
 	}
 }
